@@ -14,7 +14,7 @@ import (
 func (h *c07h) extraJobs(root *rng, tier string, jobs *[]*c07job) {
 	nV, nM, nX, nC, nR, nT := 60, 50, 70, 12, 6, 2
 	if tier == "thorough" {
-		nV, nM, nX, nC, nR, nT = 2500, 2000, 2500, 300, 60, 40
+		nV, nM, nX, nC, nR, nT = 1500, 1200, 1500, 200, 40, 25
 	}
 	add := func(f func(j *c07job)) { *jobs = append(*jobs, &c07job{run: f}) }
 	for k := 0; k < nV; k++ {
